@@ -1134,7 +1134,9 @@ class C11(Spec):
            ("{m}='v1'\n{n}='{m}'\n{m}='v2'\n{n} {m}", '<p>v1 v2</p>', 'value-fixed-at-definition'),
            ("{m}='$1|$2|$3'\n{m|a|b}", '<p>a|b|</p>', 'missing-parameter'),
            ("{m}='a'\nkeep {m=a} this\ndrop {m=b} this\nkeep {m!b} too\ndrop {m!a} too", '<p>keep  this\nkeep  too</p>', 'inclusion'),
-           ("{m}='ab'\nx {m=a}y", '<p></p>', 'inclusion-full-match'), ("\\{m} {u|x}", '<p>{m} {u|x}</p>', 'escaped-undefined')]
+           ("{m}='ab'\nx {m=a}y", '<p></p>', 'inclusion-full-match'), ("\\{m} {u|x}", '<p>{m} {u|x}</p>', 'escaped-undefined'),
+           ("{a}='A'\n{b}='B'\nx {a} \\{b}", '<p>x A {b}</p>', 'escaped-after-invocation'),
+           ("{a}='A'\n{b}='B'\n{a} \\{b}", '<p>A {b}</p>', 'escaped-after-leading-invocation')]
 
     def search_cases(self, ctx, boost):
         rng = ctx.rng('S')
